@@ -283,4 +283,232 @@ theorem engUnary_reuse_alias' (st : St) (g : UnF) (tc kt : List String) (strict 
     rw [cellD_of_some (hv1 j.toNat (by omega))]
   · intro b' k' hb' hne
     rw [hf3 _ _ (Or.inl hne), hf2 _ _ (Or.inl hne), hf1 _ _ hb']
+
+theorem eCmpIter_SV (st : St) (a b r : Win) (f : BinF) (ia ib ir : ItS) (ha : a.len = 1) (hb : b.len ≠ 1) (hr : r.len ≠ 1) :
+    eCmpIter st a b r f ia ib ir = (do kIter3SV st (← st.rd a 1 0) b r f accSet ib ir) := by
+  unfold eCmpIter isSc
+  simp [ha, hb, hr]
+
+theorem eCmpIter_VS (st : St) (a b r : Win) (f : BinF) (ia ib ir : ItS) (ha : a.len ≠ 1) (hb : b.len = 1) (hr : r.len ≠ 1) :
+    eCmpIter st a b r f ia ib ir = (do kIter3VS st a (← st.rd b 1 0) r f accSet ia ir) := by
+  unfold eCmpIter isSc
+  simp [ha, hb, hr]
+
+/-- unfolding: tensor-scalar comparison, default mode, operand needing an iterator -/
+theorem engCmpScalar_iter_default (st : St) (op : String) (tc : List String) (t : Dense) (sc : ScalarArg) (left : Bool)
+    (hta : tc.contains t.dt = true) (hdt : t.dt = sc.dt) (hsrc : sc.src = none) (hit : t.requiresIterator = true)
+    (hnsc : isScalar t.shape = false) (hs1 : sc.win.len = 1) (hmt : t.mask = none) :
+    engCmpScalar st op tc t sc left {} = (do
+      let s ← eCmpIter (allocZero st (denseLen t.shape)) (if left then t.win else sc.win) (if left then sc.win else t.win)
+        (freshOf st "b" t.shape t.ap.o.col).win (fun x y => .app2 op x y)
+        (if left then t.offsets.map (·, true) else []) (if left then [] else t.offsets.map (·, true))
+        ((freshOf st "b" t.shape t.ap.o.col).offsets.map (·, true))
+      pure ⟨s, none, .fresh (freshOf st "b" t.shape t.ap.o.col)⟩) := by
+  have hne : (t.dt != sc.dt) = false := by simp [hdt]
+  have hl : (sc.win.len != 1) = false := by simp [hs1]
+  have hmf : (freshOf st "b" t.shape t.ap.o.col).mask = none := rfl
+  unfold engCmpScalar
+  cases left <;>
+  simp only [hta, hne, ScalarArg.refresh_none _ _ hsrc, hfo_none, prepAliasT_none, hit, hnsc, hl, newDenseZero_eq,
+    itStream_nomask _ _ hmt, itStream_nomask _ _ hmf, bind, Except.bind, pure, Except.pure,
+    Bool.not_true, Bool.false_eq_true, if_false, Bool.or_false, Bool.and_false, Bool.not_false,
+    Bool.and_true, if_true, Bool.true_or, Bool.false_and, Bool.true_and, Bool.or_true]
+
+/-- **Tensor-scalar comparison on the iterator path, default mode, either side**: the fresh bool tensor holds, at the
+    `k`-th offset of its own iterator, `op t[k-th] s` (tensor on the left) or `op s t[k-th]` (scalar on the left) -/
+theorem engCmpScalar_default_iter' (st : St) (op : String) (tc : List String) (t : Dense) (sc : ScalarArg) (left : Bool)
+    (hta : tc.contains t.dt = true) (hdt : t.dt = sc.dt) (hsrc : sc.src = none) (hit : t.requiresIterator = true)
+    (hnsc : isScalar t.shape = false) (hs1 : sc.win.len = 1) (hmt : t.mask = none) (hl1 : denseLen t.shape ≠ 1)
+    (hor : ∀ i ∈ (freshOf st "b" t.shape t.ap.o.col).offsets, 0 ≤ i ∧ i < (denseLen t.shape : Int))
+    (hot : ∀ j ∈ t.offsets, 0 ≤ j ∧ j < (t.win.len : Int))
+    (hnd : (freshOf st "b" t.shape t.ap.o.col).offsets.Nodup)
+    (hT : InBuf st t.win.buf t.win.off t.win.len) (hS : InBuf st sc.win.buf sc.win.off 1) :
+    ∃ st', engCmpScalar st op tc t sc left {} = .ok ⟨st', none, .fresh (freshOf st "b" t.shape t.ap.o.col)⟩ ∧
+      st'.mheap = st.mheap ∧
+      (∀ (k : Nat) m j, (freshOf st "b" t.shape t.ap.o.col).offsets[k]? = some m → t.offsets[k]? = some j →
+        cell st' st.heap.size m.toNat = some (if left
+          then .app2 op (cellD st t.win.buf (t.win.off + j.toNat)) (cellD st sc.win.buf sc.win.off)
+          else .app2 op (cellD st sc.win.buf sc.win.off) (cellD st t.win.buf (t.win.off + j.toNat)))) ∧
+      (∀ b' k', b' < st.heap.size → cell st' b' k' = cell st b' k') := by
+  rw [engCmpScalar_iter_default st op tc t sc left hta hdt hsrc hit hnsc hs1 hmt]
+  have hlt : t.win.len ≠ 1 := requiresIterator_len hit
+  have hS' := hS.has.allocZero hS.lt (denseLen t.shape)
+  have hT' := hT.has.allocZero hT.lt (denseLen t.shape)
+  have hR : Has (allocZero st (denseLen t.shape)) (freshOf st "b" t.shape t.ap.o.col).win.buf
+      (freshOf st "b" t.shape t.ap.o.col).win.off (freshOf st "b" t.shape t.ap.o.col).win.len := by
+    simp only [freshOf]; exact allocZero_has st _
+  have hs0 : (allocZero st (denseLen t.shape)).rd sc.win 1 0 = .ok (cellD st sc.win.buf sc.win.off) := by
+    have hc := cell_some_cellD (hS'.at (i := 0) (by omega) (by omega))
+    simp only [Int.toNat_zero, Nat.add_zero] at hc
+    rw [rd0_of_cell hc, allocZero_cellD_lt _ _ _ _ hS.lt]
+  have hnt : t.win.buf ≠ (freshOf st "b" t.shape t.ap.o.col).win.buf := by simp only [freshOf]; exact Nat.ne_of_lt hT.lt
+  cases left with
+  | true =>
+    simp only [if_true]
+    rw [eCmpIter_VS _ _ _ _ _ _ _ _ hlt hs1 (by simp only [freshOf]; exact hl1)]
+    simp only [hs0, bind, Except.bind]
+    obtain ⟨s2, h2, hm2, _, hv2, hf2⟩ := kIter3VS_spec (allocZero st (denseLen t.shape)) t.win (cellD st sc.win.buf sc.win.off)
+      (freshOf st "b" t.shape t.ap.o.col).win (fun x y => .app2 op x y) accSet (t.offsets.map (·, true))
+      ((freshOf st "b" t.shape t.ap.o.col).offsets.map (·, true)) hnt (inRange_map_true hot)
+      (by simpa only [freshOf] using inRange_map_true hor) (by rw [map_true_fst]; exact hnd) hT' hR
+    refine ⟨s2, by rw [h2]; rfl, hm2, ?_, ?_⟩
+    · intro k m j hm hj
+      have := hv2 k j true m true (getElem?_map_true hj) (getElem?_map_true hm) rfl rfl
+      simp only [freshOf, Nat.zero_add, accSet] at this
+      rw [this, allocZero_cellD_lt _ _ _ _ hT.lt]
+    · intro b' k' hb'
+      rw [hf2 _ _ (Or.inl (by simp only [freshOf]; exact Nat.ne_of_lt hb')), allocZero_cell_lt _ _ _ _ hb']
+  | false =>
+    simp only [Bool.false_eq_true, if_false]
+    rw [eCmpIter_SV _ _ _ _ _ _ _ _ hs1 hlt (by simp only [freshOf]; exact hl1)]
+    simp only [hs0, bind, Except.bind]
+    obtain ⟨s2, h2, hm2, _, hv2, hf2⟩ := kIter3SV_spec (allocZero st (denseLen t.shape)) (cellD st sc.win.buf sc.win.off) t.win
+      (freshOf st "b" t.shape t.ap.o.col).win (fun x y => .app2 op x y) accSet (t.offsets.map (·, true))
+      ((freshOf st "b" t.shape t.ap.o.col).offsets.map (·, true)) hnt (inRange_map_true hot)
+      (by simpa only [freshOf] using inRange_map_true hor) (by rw [map_true_fst]; exact hnd) hT' hR
+    refine ⟨s2, by rw [h2]; rfl, hm2, ?_, ?_⟩
+    · intro k m j hm hj
+      have := hv2 k j true m true (getElem?_map_true hj) (getElem?_map_true hm) rfl rfl
+      simp only [freshOf, Nat.zero_add, accSet] at this
+      rw [this, allocZero_cellD_lt _ _ _ _ hT.lt]
+    · intro b' k' hb'
+      rw [hf2 _ _ (Or.inl (by simp only [freshOf]; exact Nat.ne_of_lt hb')), allocZero_cell_lt _ _ _ _ hb']
+
+/-- unfolding: tensor-scalar arithmetic, safe mode, operand needing an iterator -/
+theorem engArithScalar_iter_safe (st : St) (op : String) (tc : List String) (t : Dense) (sc : ScalarArg) (left : Bool)
+    (hta : tc.contains t.dt = true) (hk : (kernelTypes op).contains t.dt = true) (hdt : t.dt = sc.dt) (hsrc : sc.src = none)
+    (hit : t.requiresIterator = true) (hnsc : isScalar t.shape = false) (hs1 : sc.win.len = 1) (hmt : t.mask = none) :
+    engArithScalar st op tc t sc left {} = (do
+      let (s, c) ← t.clone st
+      let s ← (if left then eOpIter s c.win sc.win (fun x y => .app2 op x y) (t.offsets.map (·, true)) [] (vecFn op t.dt)
+               else eOpIter s sc.win c.win (fun x y => .app2 op x y) [] (t.offsets.map (·, true)) (vecFn op t.dt))
+      pure ⟨s, none, .fresh c⟩) := by
+  have hne : (t.dt != sc.dt) = false := by simp [hdt]
+  have hl : (sc.win.len != 1) = false := by simp [hs1]
+  unfold engArithScalar
+  cases left <;>
+  simp only [hta, hk, hne, ScalarArg.refresh_none _ _ hsrc, hfo_none, prepAliasT_none, hit, hnsc, hl,
+    itStream_nomask _ _ hmt, bind, Except.bind, pure, Except.pure,
+    Bool.not_true, Bool.false_eq_true, if_false, Bool.or_false, Bool.and_false, Bool.not_false,
+    Bool.and_true, if_true, Bool.true_or, Bool.false_and, Bool.true_and, Bool.or_true]
+
+/-- **Tensor-scalar arithmetic on an operand that needs an iterator, safe mode, scalar on either side**: the result is a
+    clone of the operand in which every logical element (every cell the operand's iterator addresses) is `op t s`
+    (tensor left) or `op s t` (scalar left) of the operand's element there; the gaps of a view keep their value; the
+    operand, the scalar and every other pre-existing buffer are untouched. -/
+theorem engArithScalar_safe_iter' (st : St) (op : String) (tc : List String) (t : Dense) (sc : ScalarArg) (left : Bool)
+    (hta : tc.contains t.dt = true) (hk : (kernelTypes op).contains t.dt = true) (hdt : t.dt = sc.dt) (hsrc : sc.src = none)
+    (hit : t.requiresIterator = true) (hnsc : isScalar t.shape = false) (hs1 : sc.win.len = 1) (hmt : t.mask = none)
+    (hot : ∀ j ∈ t.offsets, 0 ≤ j ∧ j < (t.win.len : Int)) (hnd : t.offsets.Nodup)
+    (hT : InBuf st t.win.buf t.win.off t.win.len) (hS : InBuf st sc.win.buf sc.win.off 1) :
+    ∃ st', engArithScalar st op tc t sc left {} = .ok ⟨st', none, .fresh (cloneOf st t)⟩ ∧ st'.mheap = st.mheap ∧
+      (∀ i ∈ t.offsets, cell st' st.heap.size i.toNat = some (if left
+          then .app2 op (cellD st t.win.buf (t.win.off + i.toNat)) (cellD st sc.win.buf sc.win.off)
+          else .app2 op (cellD st sc.win.buf sc.win.off) (cellD st t.win.buf (t.win.off + i.toNat)))) ∧
+      (∀ m, m < t.win.len → (∀ i ∈ t.offsets, m ≠ i.toNat) →
+        cell st' st.heap.size m = some (cellD st t.win.buf (t.win.off + m))) ∧
+      (∀ b' k, b' < st.heap.size → cell st' b' k = cell st b' k) := by
+  rw [engArithScalar_iter_safe st op tc t sc left hta hk hdt hsrc hit hnsc hs1 hmt]
+  obtain ⟨s1, h1, hm1, hs1', hv1, hf1⟩ := clone_spec st t hmt hT.lt hT.has
+  simp only [h1, bind, Except.bind]
+  have hlt : (cloneOf st t).win.len ≠ 1 := by simp only [cloneOf]; exact requiresIterator_len hit
+  have hHc : Has s1 st.heap.size 0 t.win.len := by
+    intro i hi
+    rw [Nat.zero_add, hv1 i hi]; rfl
+  have hs0 : cell s1 sc.win.buf sc.win.off = some (cellD st sc.win.buf sc.win.off) := by
+    rw [hf1 _ _ hS.lt]
+    have := cell_some_cellD (hS.has 0 (by omega))
+    simpa using this
+  cases left with
+  | true =>
+    simp only [if_true]
+    rw [eOpIter_scalar_right s1 _ _ _ _ _ _ _ hlt hs1 hs0]
+    obtain ⟨s2, h2, hm2, _, hv2, hf2⟩ := kIterVS_spec s1 (cloneOf st t).win (cellD st sc.win.buf sc.win.off)
+      (fun x y => .app2 op x y) (t.offsets.map (·, true))
+      (by simpa only [cloneOf] using inRange_map_true hot) (by rw [map_true_fst]; exact hnd)
+      (by simpa only [cloneOf] using hHc)
+    simp only [cloneOf] at h2 hv2 hf2 ⊢
+    refine ⟨s2, by rw [h2]; rfl, hm2.trans hm1, ?_, ?_, ?_⟩
+    · intro i hi
+      have := hv2 i (List.mem_map.mpr ⟨i, hi, rfl⟩)
+      simp only [Nat.zero_add] at this
+      have hlt' := hot i hi
+      rw [this, cellD_of_some (hv1 i.toNat (by omega))]
+    · intro m hm hne
+      rw [hf2 _ _ (Or.inr ?_), hv1 m hm]
+      intro i hi
+      rw [Nat.zero_add]
+      obtain ⟨i', hi', he⟩ := List.mem_map.mp hi
+      cases he
+      exact hne _ hi'
+    · intro b' k hb'
+      rw [hf2 _ _ (Or.inl (Nat.ne_of_lt hb')), hf1 b' k hb']
+  | false =>
+    simp only [Bool.false_eq_true, if_false]
+    rw [eOpIter_scalar_left s1 _ _ _ _ _ _ _ hs1 hlt hs0]
+    obtain ⟨s2, h2, hm2, _, hv2, hf2⟩ := kIterSV_spec s1 (cellD st sc.win.buf sc.win.off) (cloneOf st t).win
+      (fun x y => .app2 op x y) (t.offsets.map (·, true))
+      (by simpa only [cloneOf] using inRange_map_true hot) (by rw [map_true_fst]; exact hnd)
+      (by simpa only [cloneOf] using hHc)
+    simp only [cloneOf] at h2 hv2 hf2 ⊢
+    refine ⟨s2, by rw [h2]; rfl, hm2.trans hm1, ?_, ?_, ?_⟩
+    · intro i hi
+      have := hv2 i (List.mem_map.mpr ⟨i, hi, rfl⟩)
+      simp only [Nat.zero_add] at this
+      have hlt' := hot i hi
+      rw [this, cellD_of_some (hv1 i.toNat (by omega))]
+    · intro m hm hne
+      rw [hf2 _ _ (Or.inr ?_), hv1 m hm]
+      intro i hi
+      rw [Nat.zero_add]
+      obtain ⟨i', hi', he⟩ := List.mem_map.mp hi
+      cases he
+      exact hne _ hi'
+    · intro b' k hb'
+      rw [hf2 _ _ (Or.inl (Nat.ne_of_lt hb')), hf1 b' k hb']
+
+/-- unfolding: tensor-scalar arithmetic, safe mode, tensor on the left, raw path -/
+theorem engArithScalar_raw_safe_left (st : St) (op : String) (tc : List String) (t : Dense) (sc : ScalarArg)
+    (hta : tc.contains t.dt = true) (hk : (kernelTypes op).contains t.dt = true) (hdt : t.dt = sc.dt) (hsrc : sc.src = none)
+    (hit : t.requiresIterator = false) :
+    engArithScalar st op tc t sc true {} = (do
+      let (s, c) ← t.clone st
+      let s ← eOp s c.win sc.win (fun x y => .app2 op x y) (vecFn op t.dt)
+      pure ⟨s, none, .fresh c⟩) := by
+  have hne : (t.dt != sc.dt) = false := by simp [hdt]
+  unfold engArithScalar
+  simp only [hta, hk, hne, ScalarArg.refresh_none _ _ hsrc, hfo_none, prepAliasT_none, hit, bind, Except.bind, pure,
+    Except.pure, Bool.not_true, Bool.false_eq_true, if_false, Bool.or_false, Bool.and_false, Bool.not_false,
+    Bool.and_true, if_true, Bool.true_or, Bool.false_and, Bool.true_and, Bool.or_true, Bool.false_or]
+
+/-- **Tensor-scalar arithmetic, raw path, tensor on the left, safe mode**: cell `i` of the fresh clone is `op t[i] s` -/
+theorem engArithScalar_safe_raw_left' (st : St) (op : String) (tc : List String) (t : Dense) (sc : ScalarArg)
+    (hta : tc.contains t.dt = true) (hk : (kernelTypes op).contains t.dt = true) (hdt : t.dt = sc.dt) (hsrc : sc.src = none)
+    (hit : t.requiresIterator = false) (hs1 : sc.win.len = 1) (ht1 : t.win.len ≠ 1) (hmt : t.mask = none)
+    (hT : InBuf st t.win.buf t.win.off t.win.len) (hS : InBuf st sc.win.buf sc.win.off 1) :
+    ∃ st', engArithScalar st op tc t sc true {} = .ok ⟨st', none, .fresh (cloneOf st t)⟩ ∧ st'.mheap = st.mheap ∧
+      (∀ i, i < t.win.len → cell st' st.heap.size i =
+        some (.app2 op (cellD st t.win.buf (t.win.off + i)) (cellD st sc.win.buf sc.win.off))) ∧
+      (∀ b' k, b' < st.heap.size → cell st' b' k = cell st b' k) := by
+  rw [engArithScalar_raw_safe_left st op tc t sc hta hk hdt hsrc hit]
+  obtain ⟨s1, h1, hm1, _, hv1, hf1⟩ := clone_spec st t hmt hT.lt hT.has
+  simp only [h1, bind, Except.bind]
+  have hHc : Has s1 st.heap.size 0 t.win.len := by
+    intro i hi
+    rw [Nat.zero_add, hv1 i hi]; rfl
+  have hs0 : cell s1 sc.win.buf sc.win.off = some (cellD st sc.win.buf sc.win.off) := by
+    rw [hf1 _ _ hS.lt]
+    have := cell_some_cellD (hS.has 0 (by omega))
+    simpa using this
+  rw [eOp_scalar_right s1 (cloneOf st t).win sc.win _ _ _ (by simp only [cloneOf]; exact ht1) hs1 hs0]
+  obtain ⟨s2, h2, w2⟩ := kVS_spec s1 (cloneOf st t).win (cellD st sc.win.buf sc.win.off) (fun x y => .app2 op x y)
+    (by simpa only [cloneOf] using hHc)
+  simp only [cloneOf] at h2 w2 ⊢
+  refine ⟨s2, by rw [h2]; rfl, w2.mheap.trans hm1, ?_, ?_⟩
+  · intro i hi
+    have := w2.val i hi
+    simp only [Nat.zero_add] at this
+    rw [this, cellD_of_some (hv1 i hi)]
+  · intro b' k hb'
+    rw [w2.other (Nat.ne_of_lt hb'), hf1 b' k hb']
 end TM
